@@ -32,6 +32,18 @@ def r1(ctx):
     ev = Evaluator(cf.leaf3, cf.locs)
     orderings = [w for w in weak_orderings(["x", "a", "b"]) if w["a"] <= w["b"]]
     n = 0
+    import conf
+    import interp
+    crun = conf.Run(ctx)
+
+    def by_evaluation(op, w):
+        """the arm is not written as comparisons of (dt, start, finish) that the extractor reads (instants compared through a
+        helper or another accessor): conforms is evaluated on a date column holding the instant x against a literal whose
+        interval is [a, b]"""
+        got, _tr = crun.run(op, conf.variant("t", "DateTime", dt=(w["x"], w["x"])), conf.variant("lit", dt=(w["a"], w["b"])))
+        if not isinstance(got, bool):
+            raise interp.Undecided("conforms gives %r" % (got,))
+        return got
     for op, spec in SPEC.items():
         body = t.get(op, t.get("_"))
         bad = []
@@ -39,10 +51,13 @@ def r1(ctx):
             try:
                 got = ev.boolean(body, w)
             except NotComparison as e:
-                ctx.violation("conforms/DateTime/%s/not-a-comparison" % op, ctx.where(sem.CONFORMS, body),
-                              "arm for %s is not a pure comparison of (dt, start, finish): %s" % (op, e))
-                bad = None
-                break
+                try:
+                    got = by_evaluation(op, w)
+                except interp.Undecided as e2:
+                    ctx.violation("conforms/DateTime/%s/not-a-comparison" % op, ctx.where(sem.CONFORMS, body),
+                                  "arm for %s is not a pure comparison of (dt, start, finish) (%s) and conforms cannot be evaluated on it either: %s" % (op, e, e2))
+                    bad = None
+                    break
             n += 1
             want = spec(w["x"], w["a"], w["b"])
             ctx.obligation(got == want)
